@@ -1,5 +1,22 @@
 (* Properties/C02.v — Parallel PBF decoding preserves file order under every schedule.
    Statements only; proofs are in Pipeline/Proofs*.v over the LTS of Pipeline/Model.v. *)
 From Coq Require Import ZArith List Bool Arith Lia.
-From Verif Require Import Pipeline.Model Pipeline.Exec.
+From Verif Require Import Pipeline.Model Pipeline.Exec Pipeline.ProofsBasic Pipeline.Witness.
 Import ListNotations.
+
+(* FALSE for the original serializer (no re-check of the context after a receive): when another
+   goroutine cancels while Scan is blocked, a worker may drop block 1 in its select and the
+   serializer still forward block 2: objects 1, 3 are delivered.  Replayed on the real code
+   (17 of 30000 runs with the cancel issued from a filter callback); fixed in 6ff9f52. *)
+Theorem C02_overtake_refuted :
+  exists c sched, wf_cfg c = true /\ c_recheck c = false /\
+    delivered (fst (run c sched (init c))) = [1%Z; 3%Z] /\ expected (c_inp c) = [1%Z; 2%Z; 3%Z; 4%Z].
+Proof. exists cfg_over, sched_over. vm_compute. repeat split. Qed.
+Print Assumptions C02_overtake_refuted.
+
+Example C02_no_overtake_now : delivered (fst over_run_now) = [1%Z].
+Proof. vm_compute. reflexivity. Qed.
+
+(* non-vacuity: a complete fair run with 3 workers delivers the file in order *)
+Example C02_full_run : delivered (fst full_run) = expected in7 /\ snd full_run = true /\ err_value (fst full_run) = 0%Z.
+Proof. vm_compute. repeat split. Qed.
